@@ -93,6 +93,7 @@ def explore(
     done: dict = {}
     status = collections.Counter()
     secs = 0.0
+    cpu = 0.0
     worst = 0.0
     cached = 0
     for case, rec in pmap(
@@ -103,6 +104,7 @@ def explore(
         done[key] = (case, rec)
         status[rec['status']] += 1
         secs += rec.get('secs', 0.0)
+        cpu += rec.get('cpu', 0.0)
         cached += 1 if rec.get('cached') else 0
     missing = [c for c in cases if K.stable_hash(c) not in done]
     if missing:
@@ -122,6 +124,7 @@ def explore(
     ctx.cov['evaluations'] = len(done)
     ctx.cov['rule'] = rule
     ctx.cov['compile_seconds_total'] = round(secs, 1)
+    ctx.cov['compile_cpu_seconds_ok_cases'] = round(cpu, 1)
     ctx.cov['cache_hits'] = cached
     ctx.cov['tree_hash'] = K.tree_hash()
     nontriv = set()
@@ -188,7 +191,7 @@ def confirm(ctx: Ctx, found: dict, judge: Judge) -> None:
                     seeds += [ctx.seed + 1, ctx.seed + 2]
             plan.append((sig, case, rec, f, seeds))
             for s in seeds:
-                jobs.append((case, s, 'thorough', False))
+                jobs.append((case, s, ctx.tier, False))
     results: dict = collections.defaultdict(list)
     deadline = time.time() + 1500
     for (case, seed), rec in pmap(_rerun, jobs, procs=ctx.procs,
